@@ -387,6 +387,26 @@ example : sqlExists likeExec .sqlite 1
     (.cons (.or (.cons (.cmp .eq (.column "n") (.value (.int 0))) (.cons (.isNull (.column "n")) .nil))) .nil)
     [⟨some 1, env0⟩, ⟨none, env0⟩] = some true := by decide
 
+theorem joinedM_wt (sch : Schema) (links : List Link) (children : List MChild) (h : ∀ m ∈ children, WT sch m.env) :
+    ChildrenWT sch (joinedM links children) := by
+  intro c hc
+  simp only [joinedM, List.mem_flatMap, List.mem_map, List.mem_filter] at hc
+  obtain ⟨l, _, m, ⟨hm, _⟩, rfl⟩ := hc
+  exact h m hm
+
+/-- **C01_exists_m2m** — many-to-many collection (`exists(c for c in s.cs if cond)`, `s.cs` as a truth test): for every parent key,
+    every link table (any multiplicity, dangling links included), every child table and every inner condition the checker accepts,
+    `EXISTS (SELECT 1 FROM link t, C c WHERE t.c = c.id AND s.id = t.s AND conds)` is Python's `any(cond(c) for c in s.cs)`, and
+    NOT EXISTS its negation. -/
+theorem C01_exists_m2m (sch : Schema) (d : Dialect) (L : LikeFn) (e : Expr) (conds : SqlList)
+    (hc : checkConditions sch d e conds = true) (hL : LikeOK L d) (pk : Int) (links : List Link) (children : List MChild)
+    (hwt : ∀ m ∈ children, WT sch m.env) :
+    sqlExistsM L d pk conds links children = some (pyExistsM pk links children e) ∧
+    sqlNotExistsM L d pk conds links children = some (!pyExistsM pk links children e) := by
+  have hw := joinedM_wt sch links children hwt
+  simp only [sqlExistsM, sqlNotExistsM, C01_exists_collection sch d L e conds hc hL pk _ hw,
+    C01_not_exists_collection sch d L e conds hc hL pk _ hw, pyExists_joinedM, and_self]
+
 /-! ### navigation through a to-one reference (inner join) -/
 
 /-- **C01_join** — a condition that reads attributes of the referenced object (`e.parent.k`; modelled as attributes `parent.k` of the
